@@ -36,36 +36,44 @@ def skeleton : List (String × List String) := [
   ("GetListener", [
     "lock", "read listener", "unlock", "return var nil"
   ]),
-  -- pcs `listenSys` (activation or net listen; error ⇒ return) and `store` (locked write of the field)
+  -- pc `listenSys`/`store` (activation or net listen; error ⇒ return; then the write of the field), called with the
+  -- mutex held by `bind`'s caller
   ("setListener", [
     "call activationListener", "if l==nil {", "if read protocol,read address&& {", "read address",
     "os.Remove", "}", "read protocol", "read address", "call listen", "if err!=nil {", "return var", "}",
-    "if read protocol,read address&& {", "call local.SetUnlinkOnClose", "}", "}", "lock", "write listener",
-    "unlock", "return nil"
+    "if read protocol,read address&& {", "call local.SetUnlinkOnClose", "}", "}", "write listener",
+    "return nil"
   ]),
   -- pc `refresh`: reads the FIELD listener without the lock; SetDeadline when it has one; error ⇒ return
   ("refreshTimeout", [
     "read listener", "typeswitch {", "case setDeadliner {", "call local.SetDeadline", "if err!=nil {",
     "return var", "}", "}", "}", "return nil"
   ]),
-  -- pcs `bindCheck` (locked read of running; refused ⇒ return WITHOUT teardown), `parse`, then setListener
+  -- Bind: ONE critical section around `bind` (since fix a1069ea)
   ("Bind", [
-    "lock", "if read running {", "unlock", "return errorf", "}", "unlock", "call parseAddress",
+    "lock", "defer unlock", "return call bind"
+  ]),
+  -- pcs `bindCheck` (read of running; refused ⇒ return WITHOUT teardown), `parse`, `listenSys`, `store`: all under the
+  -- caller's lock, so no other thread's step can fall between them
+  ("bind", [
+    "if read running {", "return errorf", "}", "call parseAddress",
     "if err!=nil {", "return var", "}", "call setListener", "if err!=nil {", "return var", "}", "return nil"
   ]),
-  -- Bind first (error ⇒ return, the deferred teardown is registered only afterwards); `setRunning` reads l under the same lock; then the loop
+  -- bind and `setRunning` (which reads l) in ONE critical section (error ⇒ unlock, return; the deferred teardown is
+  -- registered only afterwards); then the loop
   ("Listen", [
-    "call Bind", "if err!=nil {", "return var", "}", "defer{", "call teardown", "wg.Wait", "}", "lock",
-    "write running=true", "read listener", "unlock", "for call isRunning {", "if timeout!=0 {",
+    "lock", "call bind", "if err!=nil {", "unlock", "return var", "}", "write running=true", "read listener",
+    "unlock", "defer{", "call teardown", "wg.Wait", "}", "for call isRunning {", "if timeout!=0 {",
     "call refreshTimeout", "if err!=nil {", "return var", "}", "}", "call local.Accept", "if err!=nil {",
     "if is-timeout {", "lock", "if read conncounter==0 {", "unlock", "return ServiceTimeoutError", "}",
     "unlock", "continue", "}", "if !call isRunning {", "return nil", "}", "return var", "}", "lock",
     "inc conncounter", "unlock", "wg.Add", "go call handleConnection", "}", "return nil"
   ]),
-  -- deferred teardown registered first; `readLst` (nil ⇒ error, teardown runs); `setRunning`; then the same loop as Listen
+  -- deferred teardown registered first; `readLst` (nil ⇒ error, teardown runs) and `setRunning` in ONE critical
+  -- section; then the same loop as Listen
   ("DoListen", [
-    "defer{", "call teardown", "wg.Wait", "}", "lock", "read listener", "unlock", "if l==nil {",
-    "return errorf", "}", "lock", "write running=true", "unlock", "for call isRunning {", "if timeout!=0 {",
+    "defer{", "call teardown", "wg.Wait", "}", "lock", "read listener", "if l==nil {", "unlock",
+    "return errorf", "}", "write running=true", "unlock", "for call isRunning {", "if timeout!=0 {",
     "call refreshTimeout", "if err!=nil {", "return var", "}", "}", "call local.Accept", "if err!=nil {",
     "if is-timeout {", "lock", "if read conncounter==0 {", "unlock", "return ServiceTimeoutError", "}",
     "unlock", "continue", "}", "if !call isRunning {", "return nil", "}", "return var", "}", "lock",
